@@ -199,10 +199,90 @@ def removal_shape(ctx, rule='A5r'):
            'should have been removed; marker edges start at a start node)', short(tests[0].ast) if tests else '')
 
 
+def confirmed_never_removed(ctx, rule='A6c'):
+    """The set of nodes that `get_mod_nodes_remove_incompatibilities` hands out for removal (returned, or carried by
+    the IncompatibilityError whose handlers remove it from the graph) never contains a confirmed node: where nodes
+    that may be confirmed enter the set (the nodes *deriving* an incompatible target), every way out either knows
+    that none of them is confirmed or subtracts the confirmed set first."""
+    fn = ctx.fn(f'{INCOMP}:get_mod_nodes_remove_incompatibilities')
+    cfg = build_cfg(fn)
+    conf = [s for s in walk_fn(fn) if isinstance(s, ast.Assign) and isinstance(s.value, ast.Call) and
+            call_name(s.value) == 'traverse_until_choice_nodes']
+    if not conf or not isinstance(conf[0].targets[0], ast.Tuple):
+        raise AnalysisError('get_mod_nodes_remove_incompatibilities: confirmed set not found')
+    confirmed = norm(conf[0].targets[0].elts[0])
+    rets = [n for n in cfg.nodes if n.kind == 'stmt' and isinstance(n.ast, ast.Return) and
+            isinstance(n.ast.value, ast.Name)]
+    if not rets:
+        raise AnalysisError('get_mod_nodes_remove_incompatibilities: returned set not found')
+    removed = rets[-1].ast.value.id
+    derivs = [s for s in walk_fn(fn) if isinstance(s, ast.Assign) and isinstance(s.value, ast.Call) and
+              call_name(s.value) == 'get_incompatibility_deriving_nodes']
+    if not derivs:
+        raise AnalysisError('get_mod_nodes_remove_incompatibilities: deriving-node computation not found')
+    deriving = norm(derivs[0].targets[0])
+    taints = [n for n in cfg.nodes if n.kind == 'stmt' and isinstance(n.ast, ast.AugAssign) and
+              isinstance(n.ast.op, ast.BitOr) and norm(n.ast.target) == removed and norm(n.ast.value) == deriving]
+    taints += [n for n in cfg.nodes if n.kind == 'stmt' and isinstance(n.ast, ast.Expr) and
+               isinstance(n.ast.value, ast.Call) and call_name(n.ast.value) == 'update' and
+               norm(n.ast.value.func.value) == removed and n.ast.value.args and norm(n.ast.value.args[0]) == deriving]
+    if not taints:
+        raise AnalysisError('get_mod_nodes_remove_incompatibilities: deriving nodes no longer enter the removed set')
+
+    def is_sanitizer(n):
+        a = n.ast
+        if n.kind != 'stmt':
+            return False
+        if isinstance(a, ast.AugAssign) and isinstance(a.op, ast.Sub) and norm(a.target) == removed and \
+                norm(a.value) == confirmed:
+            return True
+        if isinstance(a, ast.Assign) and norm(a.targets[0]) == removed and isinstance(a.value, ast.BinOp) and \
+                isinstance(a.value.op, ast.Sub) and norm(a.value.left) == removed and norm(a.value.right) == confirmed:
+            return True
+        if isinstance(a, ast.Expr) and isinstance(a.value, ast.Call) and call_name(a.value) == 'difference_update' and \
+                norm(a.value.func.value) == removed and a.value.args and norm(a.value.args[0]) == confirmed:
+            return True
+        return False
+    sanit = [n for n in cfg.nodes if is_sanitizer(n)]
+
+    def none_confirmed(atom, truth):
+        # `len(deriving & confirmed) > 0` is false / `deriving & confirmed` is falsy / `.isdisjoint` is true
+        t = norm(atom)
+        if deriving not in t or confirmed not in t:
+            return False
+        if isinstance(atom, ast.Call) and call_name(atom) == 'isdisjoint':
+            return truth is True
+        from ..rules import intcmp
+        inter = lambda e: isinstance(e, ast.BinOp) and isinstance(e.op, ast.BitAnd) and \
+            {norm(e.left), norm(e.right)} == {deriving, confirmed}
+        r = intcmp.emptiness(atom, inter)
+        return (r == 'empty' and truth is True) or (r == 'nonempty' and truth is False)
+    exempt = cfg.edges_implying(none_confirmed)
+    sinks = list(rets) + [n for n in cfg.nodes if n.kind == 'stmt' and isinstance(n.ast, ast.Raise) and
+                          n.ast.exc is not None and removed in {x.id for x in ast.walk(n.ast.exc) if isinstance(x, ast.Name)}]
+    starts = [m for t in taints for m, lab in t.succ if lab != 'exc']
+    reach = cfg.reachable(starts, blocked_nodes=sanit, blocked_edges=exempt, labels_excluded=('exc',))
+    for i, sk in enumerate(sinks):
+        bad = sk.id in reach
+        detail = f'{len(sanit)} subtraction(s) of `{confirmed}`, {len(exempt)} edge(s) knowing that no deriving node is confirmed'
+        if bad:
+            p = None
+            for st in starts:
+                p = cfg.find_path(st, sk, blocked_nodes=sanit, blocked_edges=exempt, labels_excluded=('exc',))
+                if p:
+                    break
+            detail = f'`{removed}` can reach this exit with confirmed nodes in it: {guards.path_text(p) if p else ""}'
+        ctx.ob(rule, fkey(fn, rule, f'confirmed-not-handed-out:{short(sk.ast, 40)}'), not bad,
+               f'{fn.module.relpath}:{sk.lineno}',
+               f'the removal set leaves the function without confirmed nodes (`{removed} -= {confirmed}` or the knowledge '
+               f'that no deriving node is confirmed)', detail)
+
+
 def check(ctx):
     feasible_shape(ctx)
     handlers(ctx)
     removal_shape(ctx)
+    confirmed_never_removed(ctx)
     # graph algorithms memoise in caller-provided cache dicts: keys must cover what the value depends on
     persist.check_memo_functions(ctx, [f for f in ctx.prog.all_functions() if f.module.name.startswith('adsg_core.graph.')])
     edges.check_walks(ctx, categories={'incompat-scan', 'derivation', 'default'},
@@ -216,6 +296,10 @@ def check(ctx):
 from ..selftest import V  # noqa: E402
 
 VARIANTS = [
+    V('confirmed-upstream-node-handed-out', 'graph/incompatibility.py',
+      [("            removed_nodes -= confirmed_nodes\n", "            removed_nodes -= start_nodes\n")], key='A6c'),
+    V('twin-confirmed-subtracted-by-method', 'graph/incompatibility.py',
+      [("            removed_nodes -= confirmed_nodes\n", "            removed_nodes.difference_update(confirmed_nodes)\n")], expect='silent'),
     V('feasible-ignores-incompatibility', 'graph/adsg.py',
       [("        if self.has_confirmed_incompatibility_edges():\n            return False\n        return True", "        return True")],
       key='no-confirmed-incompatibility'),
